@@ -287,7 +287,10 @@ fn snap_from(w: &[&str], id: u64) -> SourceSnapshot {
         },
         wander: f("w"),
         delay: f("sd"),
-        period: None,
+        period: match kv(w, "per").expect("per") {
+            "-" => None,
+            v => Some(f64unhex(v).expect("hex")),
+        },
         source_uncertainty: dur(i("su")),
         source_delay: dur(i("sdl")),
         leap_indicator: li_of(u("leap")),
@@ -424,7 +427,7 @@ impl Exec {
                     sm,
                     used,
                     snap,
-                    upd.next_update.is_some() as u8,
+                    upd.next_update.map_or("none".to_string(), |d| d.as_nanos().to_string()),
                     if srcs.is_empty() { "-".to_string() } else { srcs.join(";") }
                 )
             }
@@ -497,6 +500,17 @@ impl Exec {
                 run.end_op("ok");
                 true
             }
+            "dur" => {
+                // `Duration::from_secs_f64` (the conversion behind `next_update`) on its own
+                let x = f64unhex(kv(&w[1..], "x").unwrap()).unwrap();
+                let o = match std::time::Duration::try_from_secs_f64(x) {
+                    Ok(d) => d.as_nanos().to_string(),
+                    Err(_) => "none".to_string(),
+                };
+                run.hit("dur");
+                run.end_op(&o);
+                true
+            }
             "add" | "remove" => {
                 let id = num("id");
                 let adding = w[0] == "add";
@@ -542,7 +556,28 @@ impl Exec {
                 .all(|x| x.is_finite() && x.abs() < 1e9)
                     && snap.state.uncertainty.entry(0, 0) > 0.0
                     && snap.state.uncertainty.entry(1, 1) > 0.0;
+                let ahead = {
+                    let k = self.ctrl.as_ref().unwrap();
+                    k.sources.contains_key(&ClockId(id))
+                        && k.sources.iter().any(|(kid, (s, _))| {
+                            kid.0 != id && s.map_or(false, |v| snap.last_update - v.state.time < NtpDuration::ZERO)
+                        })
+                };
+                if ahead {
+                    run.hit("msg-while-other-source-ahead");
+                }
+                if snap.period.is_some() {
+                    run.hit("msg-periodic");
+                }
                 let (end, calls, upd) = self.call(ft, |k| k.source_message(ClockId(id), KalmanSourceMessage { inner: snap }));
+                if ahead && matches!(end, EndKind::Ok) {
+                    // C37 "in the order they were produced": the late message is stored all the same
+                    let k = self.ctrl.as_ref().unwrap();
+                    let stored = k.sources.get(&ClockId(id)).and_then(|e| e.0).map(|s| ts_raw(s.last_update));
+                    if stored != Some(ts_raw(snap.last_update)) {
+                        run.oracle_fail("late_message_stored", "", "a source's measurement was dropped because another source's filter is ahead in time");
+                    }
+                }
                 self.oracle(run, &end, &calls, false && finite);
                 let kind = match &end {
                     EndKind::Exit => 'X',
@@ -627,6 +662,8 @@ struct SimSource {
     sdl: i64,
     wander: f64,
     leap: u64,
+    period: Option<f64>,
+    lag: u64,
 }
 
 fn gen_cfg(rng: &mut Rng) -> CfgLine {
@@ -674,6 +711,10 @@ fn gen_source(rng: &mut Rng, id: u64) -> SimSource {
         sdl: *rng.pick(&[0, s(0.002), s(0.04)]),
         wander: *rng.pick(&[1e-16, 1e-12, 1e-8]),
         leap: *rng.pick(&[0u64, 0, 0, 0, 0, 1, 2, 3, 4]),
+        // one source in five is a periodic one-way source (PPS-like): it knows the offset only modulo its period
+        period: if rng.chance(1, 5) { Some(*rng.pick(&[1.0, 1.0, 0.5, 0.125, 3.0])) } else { None },
+        // delivery lag of this source's messages (its stamps are that much behind the other sources')
+        lag: if rng.chance(1, 3) { rng.below(20 << 32) } else { 0 },
     }
 }
 
@@ -687,6 +728,19 @@ fn gen_case(rng: &mut Rng) -> Vec<String> {
     }
     let cfg = cfg;
     let mut ops = vec![cfg.line()];
+    for _ in 0..3 {
+        let x = match rng.below(8) {
+            0 => f64::from_bits(rng.next_u64()),
+            1 => rng.f64_unit() * 1e-9 * *rng.pick(&[0.4, 0.5, 1.0, 1.5, 2.5, 1e3]),
+            2 => (rng.below(1 << 20) as f64 + 0.5) * 1e-9,
+            3 => *rng.pick(&[0.0, -0.0, 0.999_999_999_5, 0.999_999_999_4, 1.0, 18446744073709551615.0, 18446744073709549568.0, 1.8446744073709552e19, f64::NAN, f64::INFINITY, -1e-300, 5e-324, 4.656612873077393e-10, 2.5e-9, 3.5e-9, 4503599627370496.5, 9007199254740993.0]),
+            4 => rng.f64_unit() * 1e4,
+            5 => (rng.below(1 << 30) as f64) / 1024.0 + 0.5e-9,
+            6 => f64::from_bits((rng.next_u64() >> 2) | (1 << 61)) ,
+            _ => rng.f64_unit() * 100.0,
+        };
+        ops.push(format!("dur x={}", f64hex(x)));
+    }
     let mut sim = Exec::new();
     let cfg_line = cfg.line();
     let cw: Vec<&str> = cfg_line.split_whitespace().collect();
@@ -722,7 +776,9 @@ fn gen_case(rng: &mut Rng) -> Vec<String> {
     let mut pending_slew = false;
     // replay the bookkeeping ops on the simulation controller
     for op in ops.clone().iter().skip(1) {
-        sim_exec(&mut sim, op);
+        if !op.starts_with("dur ") {
+            sim_exec(&mut sim, op);
+        }
     }
     for _ in 0..n {
         let dt = *rng.pick(&[1u64, 2, 4, 16, 16, 64, 64, 256, 1024]);
@@ -763,20 +819,32 @@ fn gen_case(rng: &mut Rng) -> Vec<String> {
             let mut p11 = sx.fvar * (0.5 + rng.f64_unit());
             let c = (p00 * p11).sqrt() * (rng.f64_unit() - 0.5);
             let (mut p01, mut p10) = (c, c);
-            let mut kt = now;
+            // the stamp of this message: sources with a delivery lag report stamps behind the others', so a
+            // message can arrive while another source's stored state is already ahead of it (and it carries a
+            // NEW value each time)
+            let t_msg = now.wrapping_sub(sx.lag);
+            let mut kt = t_msg;
             let mut w = sx.wander;
+            // a periodic source knows the offset only modulo its period; now and then it reports it unwrapped
+            if let Some(p) = sx.period {
+                so = so - (so / p).round() * p;
+                if rng.chance(1, 6) {
+                    so += p * (rng.below(7) as f64 - 3.0);
+                }
+            }
             let mut sd = sx.delay * (0.9 + 0.2 * rng.f64_unit());
             if rng.chance(1, 5) {
-                kt = now.wrapping_sub(rng.below(8 << 32));
+                kt = t_msg.wrapping_sub(rng.below(8 << 32));
             }
             if weird && rng.chance(1, 6) {
                 match rng.below(9) {
                     0 => so = f64::NAN,
-                    1 => sf = f64::INFINITY,
+                    // (an infinite offset state makes `correct_periodicity` loop forever: not for periodic sources)
+                    1 => sf = if sx.period.is_some() { 1e-3 } else { f64::INFINITY },
                     2 => p00 = -p00,
                     3 => p10 = -p10,
                     4 => p11 = 0.0,
-                    5 => kt = now.wrapping_add(5 << 32),
+                    5 => kt = t_msg.wrapping_add(5 << 32),
                     6 => sd = f64::NAN,
                     7 => w = f64::INFINITY,
                     _ => {
@@ -786,9 +854,9 @@ fn gen_case(rng: &mut Rng) -> Vec<String> {
                 }
             }
             format!(
-                "msg id={} ft={} t={} kt={} so={} sf={} p00={} p01={} p10={} p11={} w={} sd={} su={} sdl={} leap={}",
-                id, ft, now, kt, f64hex(so), f64hex(sf), f64hex(p00), f64hex(p01), f64hex(p10), f64hex(p11), f64hex(w),
-                f64hex(sd), sx.su, sx.sdl, sx.leap
+                "msg id={} ft={} t={} kt={} so={} sf={} p00={} p01={} p10={} p11={} w={} sd={} su={} sdl={} leap={} per={}",
+                id, ft, t_msg, kt, f64hex(so), f64hex(sf), f64hex(p00), f64hex(p01), f64hex(p10), f64hex(p11), f64hex(w),
+                f64hex(sd), sx.su, sx.sdl, sx.leap, sx.period.map_or("-".to_string(), f64hex)
             )
         };
         let (alive, calls, slew) = sim_exec(&mut sim, &op);
